@@ -593,8 +593,12 @@ func (p *PkgResolver) GetPackageWithDependencies(ctx context.Context, pkgName st
 			added[dep.Name] = dep
 		}
 	}
-	// are there any installIf dependencies?
-	for dep, depPkg := range added {
+	// are there any installIf dependencies? Visit the packages in list order, the
+	// install_if packages appended below included, so that neither the order nor the
+	// membership of the result depends on map iteration.
+	for i := 0; i < len(dependencies); i++ {
+		depPkg := dependencies[i]
+		dep := depPkg.Name
 		depPkgList, ok := p.installIfMap[dep]
 		if !ok {
 			depPkgList, ok = p.installIfMap[fmt.Sprintf("%s=%s", dep, depPkg.Version)]
